@@ -45,6 +45,9 @@ fn cfgs() -> Vec<PairCfg> {
             c.client_params_override = Some(max_udp_override(v));
         });
     }
+    // a configured minimum above the initial value, with and without discovery: the estimate starts at the minimum
+    add("min1400init1200", &|c| { c.client.min_mtu = 1400; c.server.min_mtu = 1400; });
+    add("min1400init1200+mtudoff", &|c| { c.client.min_mtu = 1400; c.server.min_mtu = 1400; c.client.mtud = Mtud::Off; c.server.mtud = Mtud::Off; });
     add("min1280init1400", &|c| { c.client.initial_mtu = 1400; c.client.min_mtu = 1280; c.server.initial_mtu = 1400; c.server.min_mtu = 1280; });
     v
 }
